@@ -1,7 +1,7 @@
 """C08 - Hidden entities' data never reaches a client."""
 from engine import site_of
 from facts import callee_decl, callee_name
-from flow import tracer, short, required_outcomes, dep_closure, is_next_switch, switch_cond, edge_outcome, resolve_through_closure
+from flow import tracer, short, required_outcomes, dep_closure, is_next_switch, switch_cond, edge_outcome, resolve_through_closure, deep_origins, origin_keys, next_sources
 
 EXPLANATION = (
     "R1: every call that puts an entity's data (components, ids, removals, despawns) into a per-client message buffer outside the "
@@ -74,6 +74,17 @@ def visibility_guards(F, body, bb):
                 for xo in tr.operand(x):
                     if xo.kind == "call" and callee_decl(body.blocks[xo.data].term) == UPD + "::entity_visibility":
                         res.append(("entity_visibility != Hidden", _client_items(body, body.blocks[xo.data].term["args"][0]), None))
+                    if xo.kind == "call" and callee_decl(body.blocks[xo.data].term) == VIS + "::state":
+                        st = body.blocks[xo.data].term
+                        res.append(("state() != Hidden", _client_items(body, st["args"][0]), st["args"][1]))
+            # `state == Visible` / `state == Gained` also imply "not hidden" (a stricter filter; whether it is *complete* is C03.R6)
+            for (x, y) in ((c["a"], c["b"]), (c["b"], c["a"])):
+                v = _promoted_variant(body, y)
+                if v in ("Visible", "Gained") and ((c["rel"] == "==" and o == {True}) or (c["rel"] == "!=" and o == {False})):
+                    for xo in tr.operand(x):
+                        if xo.kind == "call" and callee_decl(body.blocks[xo.data].term) in (UPD + "::entity_visibility", VIS + "::state"):
+                            st = body.blocks[xo.data].term
+                            res.append(("visibility == %s" % v, _client_items(body, st["args"][0]), st["args"][1] if len(st["args"]) > 1 else None))
         elif c["kind"] == "boolcall" and c["name"] == VIS + "::is_visible" and o == {True}:
             res.append(("is_visible", _client_items(body, c["args"][0]), c["args"][1]))
         elif c["kind"] == "boolcall" and c["name"].endswith("Option::<T>::is_none_or") and o == {True}:
@@ -84,12 +95,17 @@ def visibility_guards(F, body, bb):
                     rv = body.blocks[co.data[0]].stmts[co.data[1]]["rvalue"]
                     if rv["rv"] == "agg" and rv["kind"] == "closure":
                         cb = F.fns.get(rv["closure"])
-                        if cb and any(callee_decl(t) == VIS + "::is_visible" for _, t in cb.calls()):
+                        if cb and any(callee_decl(t) in (VIS + "::is_visible", VIS + "::state") for _, t in cb.calls()):
                             ent = None
+                            exact = False
                             for _, t in cb.calls():
                                 if callee_decl(t) == VIS + "::is_visible":
                                     ent = ("closure", cb, t["args"][1])
-                            res.append(("is_none_or(is_visible)", _client_items(body, c["args"][0]), ent))
+                                    # the closure returns is_visible's result unchanged
+                                    exact = all(o2.kind == "call" and callee_decl(cb.blocks[o2.data].term) == VIS + "::is_visible" for o2 in tracer(cb).local(0))
+                                elif callee_decl(t) == VIS + "::state":
+                                    ent = ("closure", cb, t["args"][1])
+                            res.append(("is_none_or(is_visible)" if exact else "is_none_or(<visibility test>)", _client_items(body, c["args"][0]), ent))
         elif c["kind"] == "variant" and o == {"None"}:
             items = set()
             for po in tr.place(c["place"]):
@@ -295,31 +311,23 @@ def r4_decision_tables(ctx):
     tr = tracer(iv)
     ok = len(calls) == 1 and all(o.kind == "param" and o.data == 2 for o in tr.operand(calls[0]["args"][1])) and all(o.kind == "param" and o.data == 1 for o in tr.operand(calls[0]["args"][0]))
     ctx.check(ok, "is_visible/asks-state-of-its-argument", site_of(iv), "is_visible does not delegate to state(self, entity)")
-    table = {}
-    for dec, ret in decision_paths(F, iv):
-        vs = [v for (adt, v) in dec if adt == "Visibility"]
-        if vs:
-            table.setdefault(vs[-1], set()).add(ret)
-    want = {"Hidden": {0}, "Gained": {1}, "Visible": {1}}
-    ctx.check(table == want, "is_visible/false-exactly-for-Hidden", site_of(iv), "is_visible maps states to %s (expected Hidden->false, Gained/Visible->true)" % table, str(table))
+    import absint
+    try:
+        st_table, q_table = absint.tables(F)
+    except absint.Unmodelled as e:
+        ctx.bad("ClientVisibility/queries-modelled", VIS, "the abstract interpreter met a construct it does not model: %s" % e, kind="anchor-missing")
+        return
+    want = {"Hidden": {False}, "Gained": {True}, "Visible": {True}}
+    ctx.check(q_table == want, "is_visible/false-exactly-for-Hidden", site_of(iv), "is_visible maps states to %s (expected Hidden->false, Gained/Visible->true)" % q_table, str(q_table))
     st = ctx.fn("ClientVisibility::state")
-    paths = decision_paths(F, st)
-    got = {}
-    for dec, ret in paths:
-        lst = [v for (adt, v) in dec if adt == "VisibilityList"]
-        opt = [v for (adt, v) in dec if adt == "Option"]
-        info = [v for (adt, v) in dec if adt in ("BlacklistInfo", "WhitelistInfo")]
-        if not lst:
-            continue
-        key = (lst[0], opt[0] if opt else "?", info[0] if info else "-")
-        got.setdefault(key, set()).add(ret)
     want = {
-        ("Blacklist", "None", "-"): {"Visible"}, ("Blacklist", "Some", "Hidden"): {"Hidden"}, ("Blacklist", "Some", "QueuedForRemoval"): {"Gained"},
-        ("Whitelist", "None", "-"): {"Hidden"}, ("Whitelist", "Some", "Visible"): {"Visible"}, ("Whitelist", "Some", "JustAdded"): {"Gained"},
+        ("Blacklist", "-"): {"Visible"}, ("Blacklist", "Hidden"): {"Hidden"}, ("Blacklist", "QueuedForRemoval"): {"Gained"},
+        ("Whitelist", "-"): {"Hidden"}, ("Whitelist", "Visible"): {"Visible"}, ("Whitelist", "JustAdded"): {"Gained"},
     }
+    names = {("Blacklist", "-"): "Blacklist-None--", ("Whitelist", "-"): "Whitelist-None--"}
     for k in sorted(want):
-        ctx.check(got.get(k) == want[k], "state/%s-%s-%s" % k, site_of(st),
-                  "state() classifies (%s list, lookup %s, info %s) as %s, the policy demands %s" % (k[0], k[1], k[2], sorted(map(str, got.get(k, []))), sorted(want[k])),
+        ctx.check(st_table.get(k) == want[k], "state/%s" % names.get(k, "%s-Some-%s" % k), site_of(st),
+                  "state() classifies (%s list, entry %s) as %s, the policy demands %s" % (k[0], k[1], sorted(map(str, st_table.get(k, []))), sorted(want[k])),
                   "-> %s" % sorted(want[k]))
     # state() looks up the entity it was asked about, in the list
     gets = [t for _, t in st.calls() if callee_decl(t).endswith("::get")]
@@ -328,10 +336,72 @@ def r4_decision_tables(ctx):
               "state() does not look up the entity it was asked about")
 
 
+def r5_state_machine(ctx):
+    """Finite abstract interpretation of ClientVisibility's MIR (absint.py): every reachable per-entity state of either policy,
+    every sequence of set_visibility / tick / despawn; plus the call protocol the exploration assumes, checked on the callers."""
+    import absint
+    F = ctx.F
+    # --- the protocol the exploration assumes (order of calls made by the server per tick)
+    cd = ctx.fn("server::collect_despawns")
+    def calls_of(body, name):
+        return [(bb, t) for bb, t in body.calls() if callee_decl(t) == VIS + "::" + name]
+    isv, rem, dr = calls_of(cd, "is_visible"), calls_of(cd, "remove_despawned"), calls_of(cd, "drain_lost")
+    ok = ctx.check(len(isv) == 1 and len(rem) == 1 and len(dr) == 1, "collect_despawns/protocol-calls", site_of(cd),
+                   "expected exactly one is_visible, remove_despawned and drain_lost call, found %d/%d/%d" % (len(isv), len(rem), len(dr)))
+    if ok:
+        (ib, it), (rb, rt), (db, dt) = isv[0], rem[0], dr[0]
+        ctx.check(cd.dominates(ib, rb), "collect_despawns/query-before-forget", site_of(cd, rb), "remove_despawned is reachable without the is_visible query of that entity")
+        g = [x for x in required_outcomes(F, cd, rb) if x[1].get("kind") == "boolcall" and x[1].get("decl", "").startswith(VIS + "::")]
+        ctx.check(not g, "collect_despawns/forget-unconditional", site_of(cd, rb), "remove_despawned depends on the outcome of is_visible")
+        ctx.check(not cd.reachable_avoiding(rb, [], start=db), "collect_despawns/lost-drained-after-despawns", site_of(cd, db),
+                  "remove_despawned can run after drain_lost in the same tick")
+        same = next_sources(F, cd, it["args"][1]) & next_sources(F, cd, rt["args"][1])
+        ctx.check(bool(same), "collect_despawns/forgets-queried-entity", site_of(cd, rb), "remove_despawned is not given the entity is_visible was asked about")
+        # every entity yielded by drain_lost is written as a despawn
+        adds = [(bb, t) for bb, t in cd.calls() if callee_decl(t) == UPD + "::add_despawn"]
+        from_lost = []
+        for bb, t in adds:
+            for (pth, nb) in next_sources(F, cd, t["args"][1]):
+                if pth == cd.path and any(o[0] == "call" and o[1] == db for o in dep_closure(cd, cd.blocks[nb].term["args"][0])):
+                    from_lost.append(bb)
+        ctx.check(bool(from_lost), "collect_despawns/lost-entities-despawned", site_of(cd, db), "entities yielded by drain_lost are not written as despawns")
+    sr = ctx.fn("server::send_replication")
+    order = []
+    for nm in ("collect_despawns", "collect_changes", "send_messages"):
+        cs = [bb for bb, t in sr.calls() if callee_decl(t).endswith("server::" + nm)]
+        if ctx.check(len(cs) == 1, "send_replication/calls-%s-once" % nm, site_of(sr), "%d calls" % len(cs)):
+            order.append((nm, cs[0]))
+    for (n1, b1), (n2, b2) in zip(order, order[1:]):
+        ctx.check(sr.dominates(b1, b2), "send_replication/%s-before-%s" % (n1, n2), site_of(sr, b2), "%s does not always run before %s" % (n1, n2))
+    # --- the exploration itself
+    try:
+        viol, stats = absint.explore(F)
+    except absint.Unmodelled as e:
+        ctx.bad("ClientVisibility/modelled", VIS, "the abstract interpreter met a construct it does not model: %s" % e, kind="anchor-missing")
+        return
+    ctx.note("explored %d abstract states, %d transitions" % (stats["states"], stats["transitions"]))
+    ctx.check(stats["states"] >= 6, "ClientVisibility/states-explored", VIS, "only %d abstract states explored" % stats["states"], "%d states, %d transitions" % (stats["states"], stats["transitions"]))
+    invs = ["query-truthful", "loss-reported", "no-spurious-loss", "gain-delivers-whole-entity", "state-truthful-at-tick", "despawn-reported", "despawn-forgets-entity"]
+    seen = set()
+    for v in viol:
+        seen.add((v["policy"], v["invariant"]))
+        key = "%s/%s/%s/%s" % (v["policy"], v["invariant"], v["state"].replace(" ", ","), v["step"])
+        ctx.bad(key, VIS + "::" + ("set_visibility" if v["step"] == "tick" else "remove_despawned" if v["step"] == "despawn" else "state"),
+                "%s; shortest history: %s" % (v["detail"], " ; ".join(v["trace"])), detail="truth_visible=%s client_has=%s" % (v["truth_visible"], v["client_has"]))
+    for pol in ("Blacklist", "Whitelist"):
+        for inv in invs:
+            if (pol, inv) not in seen:
+                ctx.ok("%s/%s" % (pol, inv), VIS, "holds in every reachable state")
+
+
+from rules.first_sight import r_first_sight
+
 RULES = [
     ("C08.R1", "every write of entity data into a client's buffer is dominated by that client's not-hidden test", r1_guarded_writes, 9, ["default", "all-features", "server-only"]),
     ("C08.R2", "the visibility test is about the entity whose data is written; recorded for every client before components are read", r2_right_entity, 8, ["default", "all-features", "server-only"]),
     ("C08.R3", "visibility state is private and committed once per client per tick after sending", r3_encapsulation, 7, ["default", "all-features", "server-only"]),
     ("C08.R4", "decision tables: is_visible is false exactly for Hidden; state() classifies membership per policy", r4_decision_tables, 9, ["default", "all-features", "server-only"]),
+    ("C08.R5", "state machine: in every reachable ClientVisibility state of either policy, any sequence of set_visibility / tick / despawn reports losses, delivers gains whole and answers queries truthfully", r5_state_machine, 25, ["default", "all-features", "server-only"]),
+    ("C08.R6", "first-sight completeness: a client that does not hold an entity yet (just authorized, just spawned, visibility gained) is sent every replicated component", r_first_sight, 14, ["default", "all-features", "server-only"]),
 ]
 THOROUGH_CONFIGS = ["default", "all-features", "server-only"]
